@@ -890,7 +890,7 @@ fn action_query_check(out: &mut Out, r: &mut Rng, s: &Setup, q: &DRequest, ps: &
 /// a fixed schema with set-valued context fields and entity attributes of three element types (entities, longs,
 /// strings), next to the reference chains of `chain_spec`: `contains` / `containsAny` / `containsAll` between a set
 /// that partial evaluation knows and an operand it does not know
-fn member_spec() -> gs::SchemaSpec {
+pub fn member_spec() -> gs::SchemaSpec {
     use gs::{ActionSpec, AppliesSpec, AttrSpec, ETypeSpec, STy};
     let at = |n: &str, ty: STy, required: bool| AttrSpec { name: n.to_string(), ty, required };
     let user = || STy::Entity("User".into());
@@ -926,7 +926,7 @@ fn member_spec() -> gs::SchemaSpec {
 /// of principal / resource / a literal entity / an entity reached through an attribute.  Operands: request variables,
 /// attribute chains (erroring when an entity on the way is absent from the store of the completion), guarded optional
 /// attributes and tags, arithmetic that overflows for some completions.
-fn member_policy(r: &mut Rng) -> (String, usize) {
+pub fn member_policy(r: &mut Rng) -> (String, usize) {
     let eid = |r: &mut Rng| (*r.pick(gs::EIDS)).to_string();
     let (u, g) = (eid(r), eid(r));
     let k = *r.pick(&["k1", "k2", "some tag"]);
@@ -1058,7 +1058,7 @@ fn member_policy(r: &mut Rng) -> (String, usize) {
 }
 
 /// sets become empty (45%) or singletons (25%): the membership tests above are decided by the known set alone
-fn shrink_sets(r: &mut Rng, kvs: &mut Vec<(String, gs::DVal)>) {
+pub fn shrink_sets(r: &mut Rng, kvs: &mut Vec<(String, gs::DVal)>) {
     for (_, v) in kvs.iter_mut() {
         if let gs::DVal::Set(xs) = v {
             let m = r.below(100);
